@@ -21,6 +21,7 @@ demo() { # runs the demonstration; exit status 0 = demo passes
 	fi
 	cp "$m"/demo_test.go "$pkg/demo_test.go"
 	extra=""; grep -q "race" "$m/NOTES.md" 2>/dev/null && [ "$id" = C32 ] && [ "$which" = A ] && extra="-race"
+	head -1 "$m/NOTES.md" 2>/dev/null | grep -q "KIND: race" && extra="-race"
 	$GO test $extra -count=1 -run 'Demo' ./$pkg/ > "$wt/demo.out" 2>&1; rc=$?
 	rm -f "$pkg/demo_test.go"; return $rc
 }
